@@ -84,13 +84,15 @@ structure St where
   runOver : Bool          -- the most recent run is done (`RunDoneChan()` is closed); false before the first run
   -- ghost state (history, read by no guard)
   stopsDone : Nat         -- Stop calls returned since the last Start call was issued
+  asm : Nat               -- acquisition steps pending: assembler goroutines launched by `getNextBlock` of a
+                          -- hardware-style source (`opens`: Abaco, Lancero) that have neither delivered nor closed
 deriving DecidableEq, Repr
 
 def init (opens : Bool) : St :=
   { st := .inactive, sEnter := 0, sp := .idle, kEnter := 0, kDecided := 0, kWait := 0, kClean := 0, lp := .off, pp := .off,
     abortClosed := false, nbClosed := false, wg := 0, writing := false, res := false, opens,
     crashed := false, fuel := 0, flag := false, rEnter := 0, rSend := 0, rWait := 0,
-    runOver := false, stopsDone := 0 }
+    runOver := false, stopsDone := 0, asm := 0 }
 
 inductive Ev where
   -- Start
@@ -159,10 +161,12 @@ def step (s : St) (e : Ev) : Option St :=
   | .starterDeactivate =>
     if s.sp = .runFailing ∧ s.kDecided = 0 then some { deactivate s with sp := .idle } else none
   -- ---------------------------------------------------------------- CoreLoop
-  | .loopStart => if s.lp = .spawned then some { s with lp := .select } else none
+  -- the first `getNextBlock()`: a hardware-style source launches an acquisition step
+  | .loopStart => if s.lp = .spawned then some { s with lp := .select, asm := s.asm + (if s.opens then 1 else 0) } else none
   | .gotBlock =>
-    if s.lp = .select ∧ s.pp = .send then some { s with lp := .block, pp := .run } else none
-  | .processed => if s.lp = .block then some { s with lp := .select } else none
+    if s.lp = .select ∧ s.pp = .send then some { s with lp := .block, pp := .run, asm := s.asm - 1 } else none
+  -- `getNextBlock()` again after the block: the next acquisition step
+  | .processed => if s.lp = .block then some { s with lp := .select, asm := s.asm + (if s.opens then 1 else 0) } else none
   | .processFailed => if s.lp = .block then some { s with crashed := true } else none
   | .gotRequest n w =>
     if s.lp = .select ∧ s.rSend > 0 then
@@ -175,7 +179,7 @@ def step (s : St) (e : Ev) : Option St :=
   | .requestDone => if s.lp = .req 0 then some { s with lp := .select } else none
   | .gotClosed => if s.lp = .select ∧ s.nbClosed then some { s with lp := .exiting } else none
   | .gotError =>
-    if s.lp = .select ∧ s.pp = .sendErr then some { s with lp := .exiting, pp := .done, res := false } else none
+    if s.lp = .select ∧ s.pp = .sendErr then some { s with lp := .exiting, pp := .done, res := false, asm := 0 } else none
   | .loopDeactivate =>
     -- the loop's deferred functions: stop writing if active, then `RunDoneDeactivate`
     if s.lp = .exiting ∧ s.kDecided = 0 then some { deactivate s with lp := .off, writing := false } else none
@@ -211,9 +215,10 @@ def step (s : St) (e : Ev) : Option St :=
   | .send => if s.pp = .tick then some { s with pp := .send } else none
   | .sendError => if s.pp = .run then some { s with pp := .sendErr } else none
   | .abortSeen =>
-    if s.pp = .run ∧ s.abortClosed then
+    -- for a hardware-style source it is the pending acquisition step that closes `nextBlock`
+    if s.pp = .run ∧ s.abortClosed ∧ (s.opens = true → s.asm > 0) then
       (if s.nbClosed then some { s with crashed := true }     -- close of a closed channel
-       else some { s with pp := .done, nbClosed := true, res := false })
+       else some { s with pp := .done, nbClosed := true, res := false, asm := s.asm - 1 })
     else none
   -- ---------------------------------------------------------------- runLaterIfActive
   | .callRpc => some { s with rEnter := s.rEnter + 1 }
@@ -371,6 +376,27 @@ def effAllowed (s : St) (t : Tok) : Bool :=
   else if r == "K" then s.kClean > 0 && s.lp == .off
   else false
 
+/-- The acquisition step of a hardware-style source is logged as `asm.send` (about to hand its block over) and
+`asm.close` (about to close `nextBlock`); for the model these are the producer's `tick`+`send` and its
+shut-down. -/
+def expandAsm : List Tok → List Tok
+  | [] => []
+  | t :: ts =>
+    if t.site == "asm.send" then
+      { role := "P", site := "prod.tick" } :: { role := "P", site := "prod.send" } :: expandAsm ts
+    else if t.site == "asm.close" then { role := "P", site := "prod.abortSeen" } :: expandAsm ts
+    else t :: expandAsm ts
+
+/-- implementation only: acquisition steps launched and not yet finished (delivered, closed or errored) never exceed one -/
+def chkAsmOverlap : List Tok → Nat → Option String
+  | [], _ => none
+  | t :: ts, n =>
+    if t.site == "asm.spawn" then
+      if n ≥ 1 then some "C10:acquisition-steps-overlap getNextBlock launched an acquisition step while the previous one was still pending (each pending one closes nextBlock when the run ends)"
+      else chkAsmOverlap ts (n + 1)
+    else if t.site == "loop.gotBlock" || t.site == "prod.abortSeen" || t.site == "loop.gotError" then chkAsmOverlap ts (n - 1)
+    else chkAsmOverlap ts n
+
 /-- first core-loop token of a trace suffix is `loop.gotBlock`: remove it -/
 def pullGotBlock : List Tok → Option (List Tok)
   | [] => none
@@ -414,7 +440,10 @@ def runTrace (fuel : Nat) : St → List Tok → Nat → Nat → Bool → TraceRe
   | s, [], _, n, bad => .ok s n bad
   | s, t :: ts, i, n, bad =>
     let name := t.role ++ ":" ++ t.site
-    if t.site.startsWith "obs.failed." then
+    if t.site == "asm.spawn" then
+      -- the spawn is part of `loop.start` / `loop.processed` in the model: exactly one step is pending now
+      if s.asm == 1 then runTrace fuel s ts (i + 1) n bad else .obsMismatch i name s
+    else if t.site.startsWith "obs.failed." then
       -- after a failed Start the harness observed the real object: state, wait-group busy?, run-done channel
       -- (0 nil, 1 open, 2 closed): the counter ↔ state invariant judged on the implementation
       match (t.site.drop 11).toString.splitOn "." with
@@ -596,6 +625,7 @@ returned) is never refused by `SetStateStarting`. -/
 def chkImplOnly (ln : Line) (toks : List Tok) (calls : List (String × Nat)) (fin : Fin) : Option String :=
   if fin.hang != 0 || calls.any (fun c => c.2 == 2) then
     some "C10:hang a Start/Stop call did not return (watchdog)"
+  else if (chkAsmOverlap toks 0).isSome then chkAsmOverlap toks 0
   else if (chkRpcRestart toks 0 false).isSome then chkRpcRestart toks 0 false
   else if lastIssuedIsStop toks false && fin.st != 0 then
     some s!"C10:not-inactive-after-stops all Stop calls returned (no Start issued since) but GetState() is {fin.st}, not Inactive"
@@ -606,7 +636,8 @@ def chkImplOnly (ln : Line) (toks : List Tok) (calls : List (String × Nat)) (fi
 /-- judge one executed schedule: property oracle on the implementation's own observations first, then trace
 conformance, outcomes against the model, property oracle with the model's bookkeeping -/
 def judgeRun (ln : Line) (toks0 : List Tok) (calls : List (String × Nat)) (fin : Fin) : Verdict :=
-  let toks := normalize toks0.length false toks0
+  let toks1 := expandAsm toks0
+  let toks := normalize toks1.length false toks1
   match chkFailedObs toks false with
   | some v => .viol v
   | none =>
@@ -647,6 +678,7 @@ def judgeRun (ln : Line) (toks0 : List Tok) (calls : List (String × Nat)) (fin 
             (if countSite toks "start.startRunFailed" > 0 then ["startRunFailed"] else []) ++
             (if ln.sched == "stopDecided" then ["gated", "selfEndInsideStop"] else []) ++
             (if ln.sched == "rpc" then ["rpcLayer", "gated"] else []) ++
+            (if countSite toks "asm.spawn" > 0 then ["acquisitionSteps", "gated"] else []) ++
             (if countSite toks "sc.start.refused" > 0 then ["startRefusedWhileActive"] else []) ++
             (if ln.sched == "rnd" || ln.sched == "stopAt" || ln.sched == "reuse" || ln.sched == "timing" then ["gated"] else []) ++
             (if n > 60 then ["long"] else [])
